@@ -769,7 +769,7 @@ vbi3_bit_slicer_set_params	(vbi3_bit_slicer *	bs,
 		if (min_samples_per_bit > (3U << (LP_AVG - 1))) {
 			bs->func = low_pass_bit_slicer_Y8;
 			oversampling = 1;
-			bs->thresh <<= LP_AVG - 2;
+			bs->thresh <<= 2 * LP_AVG - 2;
 			bs->thresh_frac += LP_AVG - 2;
 		}
 		break;
@@ -782,7 +782,7 @@ vbi3_bit_slicer_set_params	(vbi3_bit_slicer *	bs,
 		if (min_samples_per_bit > (3U << (LP_AVG - 1))) {
 			bs->func = low_pass_bit_slicer_Y8;
 			oversampling = 1;
-			bs->thresh <<= LP_AVG - 2;
+			bs->thresh <<= 2 * LP_AVG - 2;
 			bs->thresh_frac += LP_AVG - 2;
 		}
 		break;
@@ -795,7 +795,7 @@ vbi3_bit_slicer_set_params	(vbi3_bit_slicer *	bs,
 		if (min_samples_per_bit > (3U << (LP_AVG - 1))) {
 			bs->func = low_pass_bit_slicer_Y8;
 			oversampling = 1;
-			bs->thresh <<= LP_AVG - 2;
+			bs->thresh <<= 2 * LP_AVG - 2;
 			bs->thresh_frac += LP_AVG - 2;
 		}
 		break;
@@ -807,7 +807,7 @@ vbi3_bit_slicer_set_params	(vbi3_bit_slicer *	bs,
 		if (min_samples_per_bit > (3U << (LP_AVG - 1))) {
 			bs->func = low_pass_bit_slicer_Y8;
 			oversampling = 1;
-			bs->thresh <<= LP_AVG - 2;
+			bs->thresh <<= 2 * LP_AVG - 2;
 			bs->thresh_frac += LP_AVG - 2;
 		}
 		break;
@@ -820,7 +820,7 @@ vbi3_bit_slicer_set_params	(vbi3_bit_slicer *	bs,
 		if (min_samples_per_bit > (3U << (LP_AVG - 1))) {
 			bs->func = low_pass_bit_slicer_Y8;
 			oversampling = 1;
-			bs->thresh <<= LP_AVG - 2;
+			bs->thresh <<= 2 * LP_AVG - 2;
 			bs->thresh_frac += LP_AVG - 2;
 		}
 		break;
@@ -833,7 +833,7 @@ vbi3_bit_slicer_set_params	(vbi3_bit_slicer *	bs,
 		if (min_samples_per_bit > (3U << (LP_AVG - 1))) {
 			bs->func = low_pass_bit_slicer_Y8;
 			oversampling = 1;
-			bs->thresh <<= LP_AVG - 2;
+			bs->thresh <<= 2 * LP_AVG - 2;
 			bs->thresh_frac += LP_AVG - 2;
 		}
 		break;
@@ -846,7 +846,7 @@ vbi3_bit_slicer_set_params	(vbi3_bit_slicer *	bs,
 		if (min_samples_per_bit > (3U << (LP_AVG - 1))) {
 			bs->func = low_pass_bit_slicer_Y8;
 			oversampling = 1;
-			bs->thresh <<= LP_AVG - 2;
+			bs->thresh <<= 2 * LP_AVG - 2;
 			bs->thresh_frac += LP_AVG - 2;
 		}
 		break;
@@ -859,7 +859,7 @@ vbi3_bit_slicer_set_params	(vbi3_bit_slicer *	bs,
 		if (min_samples_per_bit > (3U << (LP_AVG - 1))) {
 			bs->func = low_pass_bit_slicer_Y8;
 			oversampling = 1;
-			bs->thresh <<= LP_AVG - 2;
+			bs->thresh <<= 2 * LP_AVG - 2;
 			bs->thresh_frac += LP_AVG - 2;
 		}
 		break;
@@ -872,7 +872,7 @@ vbi3_bit_slicer_set_params	(vbi3_bit_slicer *	bs,
 		if (min_samples_per_bit > (3U << (LP_AVG - 1))) {
 			bs->func = low_pass_bit_slicer_Y8;
 			oversampling = 1;
-			bs->thresh <<= LP_AVG - 2;
+			bs->thresh <<= 2 * LP_AVG - 2;
 			bs->thresh_frac += LP_AVG - 2;
 		}
 		break;
@@ -885,7 +885,7 @@ vbi3_bit_slicer_set_params	(vbi3_bit_slicer *	bs,
 		if (min_samples_per_bit > (3U << (LP_AVG - 1))) {
 			bs->func = low_pass_bit_slicer_Y8;
 			oversampling = 1;
-			bs->thresh <<= LP_AVG - 2;
+			bs->thresh <<= 2 * LP_AVG - 2;
 			bs->thresh_frac += LP_AVG - 2;
 		}
 		break;
